@@ -49,14 +49,72 @@ Theorem c15_mirror_reads : forall ops f s' m u, m <> Up ->
 Proof. exact mirror_reads. Qed.
 Print Assumptions c15_mirror_reads.
 
-(* A fault at ANY statement k of the copy (any state, reachable or not): the cache afterwards
-   is its previous content or the content of the completed copy; the primary is not touched. *)
+(* A fault at ANY statement k of the copy, of ANY kind (an error of no particular type, SQLITE_BUSY,
+   SQLITE_LOCKED, driver.ErrBadConn, a context deadline), transient (that one call) or standing
+   (every call from there on) — f ranges over option fault — in any state, reachable or not: the
+   cache afterwards is its previous content or the content of the completed copy; the primary is not
+   touched; and what the copy REPORTS tells which: success = the new content, failure = the old. *)
 Theorem c15_atomic : forall s f,
   (cache (fst (step s (Sync f))) = cache s \/
    cache (fst (step s (Sync f))) = cache (fst (step s (Sync None)))) /\
-  primary (fst (step s (Sync f))) = primary s.
-Proof. intros s f. split; [apply sync_atomic|apply sync_keeps_primary]. Qed.
+  primary (fst (step s (Sync f))) = primary s /\
+  (snd (step s (Sync f)) = OSync true -> cache (fst (step s (Sync f))) = cache (fst (step s (Sync None)))) /\
+  (snd (step s (Sync f)) = OSync false -> cache (fst (step s (Sync f))) = cache s).
+Proof.
+  intros s f. split; [apply sync_atomic|]. split; [apply sync_keeps_primary|].
+  split; [apply sync_success_is_new|apply sync_failure_is_old].
+Qed.
 Print Assumptions c15_atomic.
+
+(* A restart of the daemon (a new process on the same data directory) changes neither store. *)
+Theorem c15_restart_keeps_stores : forall s,
+  snd (step s Restart) = OOk /\
+  primary (fst (step s Restart)) = primary s /\ cache (fst (step s Restart)) = cache s /\
+  now (fst (step s Restart)) = now s /\ pmode (fst (step s Restart)) = pmode s.
+Proof. exact restart_keeps. Qed.
+Print Assumptions c15_restart_keeps_stores.
+
+(* ... so what c15_outage_reads says (for every state) holds across restarts; put together: after a
+   completed copy and the primary going out in whichever way, ANY sequence of restarts, reads, requests
+   (refused or served) and further changes of the kind of outage — anything but a copy (alone or as a turn of
+   the background copier), the purge, a
+   write-through of a signed record or the primary coming back — every load is answered from the cache
+   with what the primary held when the copy completed. *)
+Theorem c15_restart_outage_reads : forall ops f s' k w tail u,
+  step (final ops) (Sync f) = (s', OSync true) ->
+  Forall (fun o => match o with
+                   | Sync _ | Copier _ | Cleanup | Upsert _ _ _ _ | DelSigned _ _ | SetMode Up => False
+                   | _ => True
+                   end) tail ->
+  snd (step (fst (run s' (SetMode (Out k w) :: tail))) (Load u)) =
+  match aget ukey_eqb u (profiles (primary (final ops))) with
+  | Some b => OLoad true true b
+  | None => OLoad false true 0%N
+  end.
+Proof. exact restart_outage_reads. Qed.
+Print Assumptions c15_restart_outage_reads.
+
+(* The background copier (BackgroundDBCopy): one turn of its loop is the copy followed by the purge of
+   both stores; what the turn reports (to the log) is what the copy returned. *)
+Theorem c15_copier_turn : forall s f,
+  step s (Copier f) = (fst (step (fst (step s (Sync f))) Cleanup), snd (step s (Sync f))).
+Proof. exact step_copier. Qed.
+Print Assumptions c15_copier_turn.
+
+(* The cache is never more than one completed copy behind.  Along ANY history — saves, deletions, turns
+   of the copier whenever the history lets it run, with or without faults of any kind, purges, outages,
+   restarts, requests — carry a ghost: the user profiles the primary held when the last copy completed
+   (run_ghost; empty before the first).  At every moment the cache's user profiles are exactly that ghost:
+   nothing but a completed copy changes them, and a completed copy makes them the primary's. *)
+Theorem c15_copier_lag : forall ops u,
+  aget ukey_eqb u (profiles (cache (fst (run_ghost init [] ops)))) = aget ukey_eqb u (snd (run_ghost init [] ops)).
+Proof. exact copier_lag. Qed.
+Print Assumptions c15_copier_lag.
+
+(* (run_ghost runs the same machine: its state is the history's final state) *)
+Theorem c15_ghost_is_run : forall ops, fst (run_ghost init [] ops) = final ops.
+Proof. intro ops. apply run_ghost_final. Qed.
+Print Assumptions c15_ghost_is_run.
 
 (* While the primary does not answer reads — in WHICHEVER way: the query hangs past the
    deadline (RHang), the statement cannot even be prepared (RPrepare: connection refused, closed
@@ -103,7 +161,8 @@ Qed.
 Print Assumptions c15_outage_writes.
 
 Theorem c15_dead_frozen : forall s o, writable s = false -> (forall m, o <> SetMode m) ->
-  primary (fst (step s o)) = primary s /\ (o <> Cleanup -> cache (fst (step s o)) = cache s).
+  primary (fst (step s o)) = primary s /\
+  (o <> Cleanup -> (forall f, o <> Copier f) -> cache (fst (step s o)) = cache s).
 Proof. exact dead_frozen. Qed.
 Print Assumptions c15_dead_frozen.
 
@@ -145,9 +204,9 @@ Print Assumptions c15_old_mirror_refuted.
    loop committed a cache that is neither the old nor the new content *)
 Theorem c15_old_atomic_refuted_cursor :
   let s := fst (run_old false init old_cursor_history) in
-  let c := cache (fst (step_old false s (Sync (Some 9%nat)))) in
+  let c := cache (fst (step_old false s (Sync (Some (gen 9))))) in
   let cnew := cache (fst (step_old false s (Sync None))) in
-  snd (step_old false s (Sync (Some 9%nat))) = OSync true /\
+  snd (step_old false s (Sync (Some (gen 9)))) = OSync true /\
   same_db c (cache s) = false /\ same_db c cnew = false.
 Proof. exact old_atomic_refuted_cursor. Qed.
 Print Assumptions c15_old_atomic_refuted_cursor.
@@ -155,12 +214,50 @@ Print Assumptions c15_old_atomic_refuted_cursor.
 (* on a driver that runs Query statements eagerly the DELETE was durable outside the transaction *)
 Theorem c15_old_atomic_refuted_eager :
   let s := fst (run_old true init old_eager_history) in
-  let c := cache (fst (step_old true s (Sync (Some 6%nat)))) in
+  let c := cache (fst (step_old true s (Sync (Some (gen 6))))) in
   let cnew := cache (fst (step_old true s (Sync None))) in
-  snd (step_old true s (Sync (Some 6%nat))) = OSync false /\
+  snd (step_old true s (Sync (Some (gen 6)))) = OSync false /\
   same_db c (cache s) = false /\ same_db c cnew = false.
 Proof. exact old_atomic_refuted_eager. Qed.
 Print Assumptions c15_old_atomic_refuted_eager.
+
+(* NOT the code, a variant the statements exclude: a copy that writes its destination transaction again
+   (3 attempts) after SQLITE_BUSY / SQLITE_LOCKED while the source cursors stay where the failed attempt
+   left them (step_retrying).  A transient busy / locked error at the second insert (statement 9) or at
+   the COMMIT (statement 17 of 18) ends in a committed cache that is neither the old nor the new
+   content — empty, for the COMMIT — and is reported as success; the code (step), for the same faults,
+   keeps the old cache and reports the failure. *)
+Theorem c15_retry_reuses_cursors_refuted :
+  let s := fst (run init retry_history) in
+  let cnew := cache (fst (step s (Sync None))) in
+  length (sync_script (primary s) (now s)) = 18%nat /\
+  forallb (fun k =>
+    forallb (fun at_ =>
+      let f := Some (F at_ k true) in
+      out_eqb (snd (step_retrying s (Sync f))) (OSync true) &&
+      negb (same_db (cache (fst (step_retrying s (Sync f)))) (cache s)) &&
+      negb (same_db (cache (fst (step_retrying s (Sync f)))) cnew) &&
+      out_eqb (snd (step s (Sync f))) (OSync false) &&
+      same_db (cache (fst (step s (Sync f)))) (cache s)) [9%nat; 17%nat]) [KBusy; KLocked] = true /\
+  profiles (cache (fst (step_retrying s (Sync (Some (F 17 KBusy true)))))) = [] /\
+  map fst (profiles (cache (fst (step_retrying s (Sync (Some (F 9 KBusy true))))))) = [1%N] /\
+  snd (step_retrying s (Sync (Some (F 9 KBusy false)))) = OSync false.
+Proof. exact retrying_refuted. Qed.
+Print Assumptions c15_retry_reuses_cursors_refuted.
+
+(* NOT the code: a start-up that begins with a new cache file (step_wiping).  After a completed copy,
+   an outage of any kind and a restart, the load, the user list and the second-factor check that the
+   previous process answered from the cache find nothing; the code answers them. *)
+Theorem c15_restart_wipes_refuted : forall k w,
+  let h := [Save 1 10; Upsert 1 1 5 1000%Z; Sync None; SetMode (Out k w); Restart]%N in
+  snd (step_wiping (fst (run_gen step_wiping init h)) (Load 1%N)) = OLoad false true 0%N /\
+  snd (step_wiping (fst (run_gen step_wiping init h)) Users) = OUsers true [] /\
+  snd (step_wiping (fst (run_gen step_wiping init h)) (Handler HAuthSave 1%N 12%N)) = ORefused /\
+  snd (step (fst (run init h)) (Load 1%N)) = OLoad true true 10%N /\
+  snd (step (fst (run init h)) Users) = OUsers true [1%N] /\
+  snd (step (fst (run init h)) (Handler HAuthSave 1%N 12%N)) = OServed.
+Proof. exact wiping_refuted. Qed.
+Print Assumptions c15_restart_wipes_refuted.
 
 (* webauthnAuthFinish dropped fromCache: with a slow primary the cache's older profile (10)
    replaced the newer one (11) *)
@@ -199,12 +296,45 @@ Proof. vm_compute. reflexivity. Qed.
 (* the same copy interrupted at statement 7 keeps the old cache; at the commit too *)
 Example c15_fault :
   let s := fst (run init [Save 1 10; Sync None; Save 1 11; Save 2 20]) in
-  same_db (cache (fst (step s (Sync (Some 7%nat))))) (cache s) = true /\
-  snd (step s (Sync (Some 7%nat))) = OSync false /\
+  same_db (cache (fst (step s (Sync (Some (gen 7)))))) (cache s) = true /\
+  snd (step s (Sync (Some (gen 7)))) = OSync false /\
   length (sync_script (primary s) (now s)) = 14%nat /\
-  snd (step s (Sync (Some 13%nat))) = OSync false /\
-  snd (step s (Sync (Some 14%nat))) = OSync true /\
-  same_db (cache (fst (step s (Sync (Some 14%nat))))) (primary s) = true.
+  snd (step s (Sync (Some (gen 13)))) = OSync false /\
+  snd (step s (Sync (Some (gen 14)))) = OSync true /\
+  same_db (cache (fst (step s (Sync (Some (gen 14)))))) (primary s) = true.
+Proof. vm_compute. repeat split; reflexivity. Qed.
+
+(* kinds of faults: a transient bad connection on a call that database/sql repeats (the source queries 0 / 1,
+   Begin 2, the prepared inserts 7 ...) is not seen by the copy, which completes; a standing one, or one on
+   a call that is not repeated (the DELETE 3, a row fetch 6, the COMMIT 17) fails it; every other kind
+   fails it wherever it strikes *)
+Example c15_fault_kinds :
+  let s := fst (run init retry_history) in
+  map (fun f => snd (step s (Sync (Some f))))
+      [F 0 KBadConn true; F 2 KBadConn true; F 7 KBadConn true; F 0 KBadConn false; F 3 KBadConn true; F 6 KBadConn true; F 17 KBadConn true;
+       F 0 KBusy true; F 7 KLocked true; F 7 KDeadline false; F 17 KBusy true; F 18 KBusy false]
+  = [OSync true; OSync true; OSync true; OSync false; OSync false; OSync false; OSync false;
+     OSync false; OSync false; OSync false; OSync false; OSync true].
+Proof. vm_compute. reflexivity. Qed.
+
+(* a history with restarts: the cache keeps serving *)
+Example c15_restart_history :
+  let ops := [Save 1 10; Upsert 1 1 5 1000%Z; Sync None; Save 1 11; Restart; SetMode Dead; Load 1; Restart; Load 1; GetS 1 1; Users;
+              SetMode Up; Restart; Load 1] in
+  snd (run init ops) =
+  [OOk; OOk; OSync true; OOk; OOk; OOk; OLoad true true 10; OOk; OLoad true true 10; OSigned true 5; OUsers true [1];
+   OOk; OOk; OLoad true false 11].
+Proof. vm_compute. reflexivity. Qed.
+
+(* the copier over a history: two saves, a turn, a change, a faulted turn (old content stays, the ghost too),
+   a clean turn; an expired record is purged by the turn *)
+Example c15_copier_history :
+  let ops := [Save 1 10; Upsert 1 1 5 50%Z; Copier None; Save 1 11; Save 2 20; Copier (Some (F 9 KBusy true)); Tick 100%Z] in
+  let '(s, g) := run_ghost init [] ops in
+  g = [(1, 10)] /\ profiles (cache s) = [(1, 10)] /\ signed (cache s) = [((1, 1), mk_srow 5 50%Z 0%Z)] /\
+  let '(s', g') := run_ghost init [] (ops ++ [Copier None]) in
+  same_map ukey_eqb N.eqb g' [(1, 11); (2, 20)] = true /\ same_db (cache s') (mk_db [(1, 11); (2, 20)] []) = true /\
+  signed (primary s') = [].
 Proof. vm_compute. repeat split; reflexivity. Qed.
 
 (* every kind of outage: the reads come from the cache, the mutation is refused, the second-factor
